@@ -382,6 +382,24 @@ def trace_validation(ctx, exe):
     scripts = [tree_script(k + 1, c) for k, c in enumerate(cfgs)]
     texts = [s for s, _ in scripts]
     fails, recs, ns, nt = run_scripts(exe, [], texts, ctx.rundir, jobs=4, tag="rec")
+    # The same executions once more with the allocator reusing freed blocks immediately (ASan's quarantine keeps every freed
+    # block out of circulation, which hides anything keyed by an ADDRESS that a free + malloc pair hands out again, e.g. a cache
+    # remembering the pointer of a replaced setting).  Results must not depend on it: the two recordings must be identical; the
+    # first one is then judged by TLC.
+    from vlib.replay import ASAN_OPTS
+    fails2, recs2, _, _ = run_scripts(exe, [], texts, ctx.rundir, jobs=4, tag="rec2", env={"ASAN_OPTIONS": ASAN_OPTS + ":quarantine_size_mb=0:thread_local_quarantine_size_kb=0"})
+    last = {sid: (ret, state) for sid, step, ret, state in recs if step == scripts[sid - 1][1]}
+    last2 = {sid: (ret, state) for sid, step, ret, state in recs2 if step == scripts[sid - 1][1]}
+    ndiff = 0
+    for sid in sorted(set(last) | set(last2)):
+        if last.get(sid) != last2.get(sid):
+            ndiff += 1
+            a, b = last.get(sid), last2.get(sid)
+            ctx.report("trace-run parse [fam=%s] result-depends-on-address-reuse" % ("value/size/name" if sid <= len(fam) else "random"),
+                       "the same script gives another result when freed blocks are reused at once: %s vs %s" % (str(a)[:300], str(b)[:300]),
+                       {"harness_args": [], "script_text": texts[sid - 1], "context_script_text": (texts[sid - 5] if sid > 4 else "") + texts[sid - 1],
+                        "asan_options_extra": "quarantine_size_mb=0:thread_local_quarantine_size_kb=0"})
+    ctx.cov["executions_repeated_with_immediate_block_reuse"] = len(last2)
     bad = set()
     for f in fails:
         bad.add(f.sid)
